@@ -172,10 +172,10 @@ pub fn run(ctx: &Ctx) {
     );
     ctx.assume("plans come from IRBuilder, so they satisfy the builder's schema invariants by construction");
     ctx.assume("the reference interpreter (harness/src/common/plan.rs) implements the operator meaning documented in src/ir/mod.rs");
-    ctx.run_part_with("builder_plans", ctx.cases(6000, 200_000), strategy, |c, o| check(ctx, c, o), Some(&crate::common::gen::shrink_case));
+    ctx.run_part_with("builder_plans", ctx.cases(20_000, 300_000), strategy, |c, o| check(ctx, c, o), Some(&crate::common::gen::shrink_case));
     ctx.run_part(
         "synthetic_plans",
-        ctx.cases(6000, 200_000),
+        ctx.cases(20_000, 300_000),
         || tape_strategy(140).prop_map(|t| super::c05syn::decode(&t)),
         |c, o| super::c05syn::check(ctx, c, o),
     );
